@@ -21,6 +21,7 @@ void * g_spm_val;
 #include "datastruct/elasticarray.c"
 #include "datastruct/elasticqueue.c"
 #include "datastruct/seqptrmap.c"
+#include "c12_defs.h"
 #include "spm.h"
 
 void
